@@ -371,7 +371,36 @@ Fixpoint eval (g : env) (e : expr) {struct e} : ev :=
                | _ => Err
                end)
          end) es []
-  | EComp _ _ _ _ _ => Unspec
+  (* "You can use list comprehension similar to the ones in Python ... syntax sugar for a `for`
+     loop": the target is evaluated once; for each element in order the loop variable is bound
+     (shadowing an outer variable of that name), the condition - when there is one - is
+     evaluated first and a falsy (or undefined: one level) condition skips the element, else the
+     element expression is evaluated and appended; the first error ends the evaluation.
+     Decided for an array target without a key variable (and for an empty map with key and
+     value); other targets (maps in their iteration order, strings, `k, v` over an array, an
+     undefined element value) are left open here. *)
+  | EComp e k v target cond =>
+      bind (eval g target) (fun tv =>
+        match tv, k with
+        | VArr l, None =>
+            (fix go (l : list value) : ev :=
+               match l with
+               | [] => Val (VArr [])
+               | x :: r =>
+                   let g' := (v, x) :: g in
+                   bind (match cond with Some c => eval g' c | None => Val (VBool true) end) (fun cv =>
+                     if is_truthy cv then
+                       bind (eval g' e) (fun y =>
+                         match y with
+                         | VUndef => Unspec
+                         | _ => bind (go r) (fun rest =>
+                                  match rest with VArr rl => Val (VArr (y :: rl)) | _ => Unspec end)
+                         end)
+                     else go r)
+               end) l
+        | VMap [], Some _ => Val (VArr [])
+        | _, _ => Unspec
+        end)
   end.
 
 (* what `{{ e }}` does with the value: printing an undefined value is an error *)
